@@ -78,7 +78,7 @@ def gen_config(rng, mode=None):
 def scripted_prefix(rng, cfg):
     """Multi-step situations that a uniform event stream rarely builds: several pull requests driven to the merge
     one after the other or in one batch, entering the cascade at the same or at different branches."""
-    kind = rng.choice(['same-base', 'batch', 'second-entry-lower', 'none', 'none'])
+    kind = rng.choice(['same-base', 'batch', 'second-entry-lower', 'w-stale', 'w-manual', 'w-revert', 'none', 'none'])
     if kind == 'none' or len(cfg.dests) < 1:
         return [], 0
     devs = [d for d in cfg.dests if not d.startswith('hotfix/')]
@@ -89,6 +89,23 @@ def scripted_prefix(rng, cfg):
     def open_(i, dst):
         evs.append({'op': 'open', 'pr': i, 'dst': dst,
                     'src': '%s/TEST-%04d' % (rng.choice(['feature', 'bugfix', 'improvement']), i)})
+    if kind in ('w-stale', 'w-manual', 'w-revert'):
+        # somebody works on an integration branch by hand between two evaluations:
+        #  w-stale   a commit on the FIRST integration branch after the later ones were built green (the later ones are
+        #            no longer in sync with their predecessor although they still contain the source branch)
+        #  w-manual  a commit on any integration branch (a conflict resolution), then the pull request is driven to the merge
+        #  w-revert  a commit that takes an integration branch back to the content of its destination branch
+        open_(1, devs[0] if kind == 'w-stale' else rng.choice(devs))
+        evs.append({'op': 'eval_pr', 'pr': 1})
+        if kind == 'w-stale':
+            evs += [{'op': 'build', 'pr': 1, 'what': 'integration', 'state': 'SUCCESSFUL'},
+                    {'op': 'w_commit', 'pr': 1, 'which': 0}]
+        elif kind == 'w-manual':
+            evs.append({'op': 'w_commit', 'pr': 1, 'which': rng.randint(0, 2)})
+        else:
+            evs.append({'op': 'w_commit', 'pr': 1, 'which': rng.randint(0, 2), 'revert': True})
+        evs += [{'op': 'progress', 'pr': 1}, {'op': 'progress', 'pr': 1}, {'op': 'progress', 'pr': 1}]
+        return evs, 1
     if kind == 'same-base':
         # two pull requests branched from the same commit, merged one after the other (the second one is not rebased)
         d = rng.choice(devs)
@@ -257,7 +274,19 @@ class Run:
             if not ws:
                 return 'skip', None
             name = ws[ev.get('k', 0) % len(ws)]
-            w.user_commit(name, author=CONTRIB)
+            if ev.get('which') is not None:
+                # the integration branch of the n-th target after the first, in cascade order (not in name order)
+                by_version = sorted(ws, key=lambda n: version_key('development/' + n.split('/')[1]))
+                name = by_version[min(ev['which'], len(by_version) - 1)]
+            if ev.get('revert'):
+                # a commit that takes the integration branch back to the content of its destination branch
+                dst = [d for d in refs if not d.startswith('hotfix/') and '/' in d
+                       and d.split('/', 1)[1] == name.split('/')[1] and d.startswith(('development/', 'stabilization/'))]
+                if not dst:
+                    return 'skip', None
+                w.user_revert(name, dst[0])
+            else:
+                w.user_commit(name, author=CONTRIB)
             m = re.match(r'^w/([0-9.]+)/(.+)$', name)
             return 'ext', {'xw': ('d' + m.group(1), m.group(2))}
         if op == 'approve':
